@@ -413,6 +413,15 @@ structure SetEntry where
   act : Act
   deriving Repr, DecidableEq
 
+/-- one conversion the setter tries when no name is given (`name == NULL`, type-directed assignment) -/
+inductive AutoStep where
+  | sibling             -- an object of the same kind: assigned like the sibling copy
+  | own                 -- (line) a value of the kind's own struct type
+  | string (field : Nat)   -- `mpt_string_pset` into a string member: takes any text
+  | colour (field : Nat)   -- a value of the colour type
+  | lattr               -- a value of the line attribute type
+  deriving Repr, DecidableEq
+
 /-- everything extracted for one object kind -/
 structure Kind where
   name : String
@@ -422,6 +431,8 @@ structure Kind where
   matchLen : Option Nat
   /-- names the getter replaces by a listed name before the lookup (full comparison, case ignored) -/
   getAlias : List (Str × Str)
+  /-- the conversions of the `name == NULL` block, in order -/
+  auto : List AutoStep
   sets : List SetEntry
   /-- getter special: entry index whose value reads `log` while flag `bit` of member `flags` is set -/
   logAt : Option (Nat × Nat × Nat)
@@ -793,6 +804,32 @@ def Kind.setEmptyName (k : Kind) (o : Obj) (src : Src) : Out :=
   | .text (some []) => ⟨k.defaults, .ok 0⟩
   | .text (some _) => ⟨o, .err .BadType⟩
   | .typed _ _ => ⟨o, .unsup⟩
+
+/-- `mpt_<kind>_set(obj, NULL, src)` with a text source: no text converts to "no value" of the kind's own type (the
+    defaults are taken); any other text is taken by the first string member the block offers, else refused -/
+def Kind.setAuto (k : Kind) (o : Obj) (src : Src) (tok : Nat) : Out :=
+  match src with
+  | .null => ⟨o, .err .BadOperation⟩
+  | .typed _ _ => ⟨o, .unsup⟩
+  | .text Option.none => ⟨k.defaults, .ok 0⟩
+  | .text (some []) => ⟨k.defaults, .ok 0⟩
+  | .text (some v) =>
+    match k.auto.findSome? (fun st => match st with | .string f => some f | _ => Option.none) with
+    | some f => ⟨setString o f (some v) tok, .ok 0⟩
+    | Option.none => ⟨o, .err .BadType⟩
+
+/-- `mpt_<kind>_set(obj, NULL, src)` with a source that answers exactly one type (the colour type: `colour = true`, else the
+    line attribute type) with "no value": the member of the first step of that type takes its default -/
+def Kind.setAutoNone (k : Kind) (o : Obj) (colour : Bool) : Out :=
+  let attrFields := k.sets.filterMap fun e => match e.act with | .lattr f _ _ _ _ => some f | _ => Option.none
+  let hit := k.auto.findSome? fun st =>
+    match st with
+    | .colour f => if colour then some [f] else Option.none
+    | .lattr => if colour then Option.none else some attrFields
+    | _ => Option.none
+  match hit with
+  | some fs => ⟨fs.foldl (fun ob f => ob.put f (k.dflt f)) o, .ok 0⟩
+  | Option.none => ⟨o, .err .BadType⟩
 
 /-! ### getters -/
 
